@@ -242,3 +242,63 @@ Example C02spec_rename_unfaithful_witness :
   (exists w pbs, external_decompose_full full_fuel t9s = XOk w pbs) /\ ~ spec_rename_faithful t9s S9.
 Proof. exact (conj t9s_accepted t9s_not_faithful). Qed.
 Print Assumptions C02spec_rename_unfaithful_witness.
+
+(* ---------------- recorded behaviour: `assumption(backward)` in a specification (audit2 B9, finding F19) ----------------
+   anthem warns "ignored in the forward direction" and then uses the formula in NEITHER direction; the
+   relation stated by the theorems above is the one the code builds: such a formula changes none of
+   spec_stable / spec_forward_premises / spec_backward_conclusions.  Under the reading the warning suggests
+   (a premise of the backward direction) the emitted backward problems lack an axiom: incompleteness
+   (interpretations violating the assumption refute a problem), never a false theorem. *)
+Theorem C02spec_backward_assumption_contributes_nothing :
+  forall (a : aformula_annot) (s1 s2 : specification),
+    an_role a = RAssumption -> an_dir a = DBackward ->
+    spec_stable (s1 ++ a :: s2) = spec_stable (s1 ++ s2) /\
+    spec_forward_premises (s1 ++ a :: s2) = spec_forward_premises (s1 ++ s2) /\
+    spec_backward_conclusions (s1 ++ a :: s2) = spec_backward_conclusions (s1 ++ s2).
+Proof. exact spec_backward_assumption_nothing. Qed.
+Print Assumptions C02spec_backward_assumption_contributes_nothing.
+
+(* ---------------- a shipped example (res/examples/external_equivalence/trivial/propositional) ----------------
+   spec: q <-> t or r.  spec: p <-> #true.   vs   p.  q :- t.  q :- r.   input: t/0. input: r/0. output: p/0. output: q/0.
+   The claim is true: every emitted problem is valid in every interpretation (by evaluation), and THROUGH
+   C02spec_verified_iff_no_difference no interpretation witnesses a difference in either direction. *)
+Example C02spec_shipped_propositional_verified :
+  external_decompose_full full_fuel tprop = XOk [] pbsprop /\
+  (forall FI M, ~ refutes_some FI M pbsprop) /\ (forall FI M, ~ spec_difference tprop Sprop FI M).
+Proof. exact (conj tprop_accepted (conj tprop_irrefutable tprop_no_difference)). Qed.
+Print Assumptions C02spec_shipped_propositional_verified.
+
+(* ---------------- program-vs-program: the premise ug_over_inputs follows from acceptance (audit2 B9) ----------------
+   C02_countermodel_complete and C02_external_equivalence (Properties/C02full.v) without their premise
+   ug_over_inputs: an accepted task passed ensure_assumptions_only_contain_input_symbols. *)
+Theorem C02_accepted_ug_over_inputs :
+  forall (fuel : nat) (t : ext_task) w pbs, external_decompose_full fuel t = XOk w pbs -> ug_over_inputs t.
+Proof. exact accepted_task_ug_over_inputs. Qed.
+Print Assumptions C02_accepted_ug_over_inputs.
+
+Theorem C02_countermodel_complete_accepted :
+  forall (fuel : nat) (t : ext_task) (L : program) w pbs lft rgt,
+    et_specification t = inl L -> et_proof_outline t = [] ->
+    external_decompose_full fuel t = XOk w pbs ->
+    is_tight L = true -> is_tight (et_program t) = true ->
+    task_left tau_star_total completion (simp_classic_total fuel) t L = Some lft ->
+    task_right tau_star_total completion (simp_classic_total fuel) t = Some rgt ->
+    (forall vt, task_validated tau_star_total completion (simp_classic_total fuel) t = Some vt -> validated_no_clash vt) ->
+    rename_faithful t L ->
+    forall (FI : fint) (T : pint),
+      behavioural_difference t L FI T -> exists M, pub_agree t M T /\ refutes_some FI M pbs.
+Proof. exact countermodel_complete_accepted. Qed.
+Print Assumptions C02_countermodel_complete_accepted.
+
+Theorem C02_external_equivalence_accepted :
+  forall (fuel : nat) (t : ext_task) (L : program) w pbs lft rgt,
+    et_specification t = inl L -> et_proof_outline t = [] ->
+    external_decompose_full fuel t = XOk w pbs ->
+    is_tight L = true -> is_tight (et_program t) = true ->
+    task_left tau_star_total completion (simp_classic_total fuel) t L = Some lft ->
+    task_right tau_star_total completion (simp_classic_total fuel) t = Some rgt ->
+    (forall vt, task_validated tau_star_total completion (simp_classic_total fuel) t = Some vt -> validated_no_clash vt) ->
+    rename_faithful t L ->
+    forall (FI : fint), (exists M, refutes_some FI M pbs) <-> (exists T, behavioural_difference t L FI T).
+Proof. exact external_equivalence_accepted. Qed.
+Print Assumptions C02_external_equivalence_accepted.
